@@ -166,6 +166,28 @@ func runC07(c *Ctx) {
 	r.Rule("src-mac", "Ethernet source of every emitted frame is NICInfo.HostAddr4.MAC", 11)
 	r.Rule("checksum-order", "checksums are computed after the last write they cover", 4)
 	r.Rule("hop-limit", "hop limit 255 for link-local destinations and for neighbour discovery messages", 2)
+	// the options, records and addresses a sender collects in a loop are distinct objects: no address of an iteration
+	// variable is kept across iterations (with this module's language version every kept pointer would name the one
+	// variable, and every prefix option of a router advertisement would carry the last prefix)
+	r.Rule("loop-var", "no address of a loop iteration variable is kept across iterations", 1)
+	{
+		kglv := core.NewKeyGen()
+		n := 0
+		for _, fn := range c.P.LibFunctions() {
+			for _, ins := range loopVarAliases(c, fn) {
+				n++
+				r.Add(core.Obligation{Rule: "loop-var", Key: strings.TrimSuffix(kglv.Key("loop-var "+core.FuncName(fn)), "#0"), Func: core.FuncName(fn), Pos: c.P.Pos(core.PosOf(ins)), Status: core.Violated,
+					Detail: "the address of a loop iteration variable is kept (appended, stored or wrapped in an interface value) inside the loop: all kept pointers name the same variable, which holds the last element when the loop is over"})
+			}
+		}
+		r.Extra["loop_variable_addresses_kept"] = n
+		stSelf := core.Proved
+		if !loopVarSelfTest(c) {
+			stSelf = core.Violated
+		}
+		r.Add(core.Obligation{Rule: "loop-var", Key: "loop-var the rule fires on its built-in positive example", Func: "-", Status: stSelf,
+			Basis: "a five-line example (append(out, &v) in a range loop, language version 1.18) is built and must be reported", Detail: "the loop-variable rule no longer matches its own positive example: its silence on the repository means nothing"})
+	}
 	// a NetBIOS name goes out as exactly 16 characters (32 half-octets under a length octet that says 32): padding to 16
 	// is the last thing that changes the length of the name - nothing shortens it afterwards
 	r.Rule("nbns-name", "the NBNS name is padded to 16 characters after any truncation, not before", 1)
